@@ -250,3 +250,54 @@ def scenario_resetup(prog, mode_a, mode_b):
         o.choice_log = dom.choice_log[getattr(dom, "choice_first", 0):]
         outs.append(o)
     return outs
+
+
+def scalar_value(t, seed=0):
+    """numerical value (mpmath, 40 digits) of a scalar term with every uninterpreted sub-term (norm of a vector term, error
+    figure, ...) replaced by a pseudo-random positive number that depends only on the sub-term: two terms that are equal as
+    real functions of those quantities get the same value whatever the order of their arithmetic (used to compare a
+    reported statistic with its defining formula without demanding the same spelling)"""
+    import hashlib
+    import mpmath as mp
+    mp.mp.dps = 40
+    from fractions import Fraction
+
+    def leaf_value(x):
+        h = hashlib.sha256(("%s|%s" % (seed, show(x) if isinstance(x, (LC, tuple, Atom)) else repr(x))).encode()).hexdigest()
+        return mp.mpf(int(h[:12], 16) % 900000 + 100000) / mp.mpf(int(h[12:20], 16) % 9000 + 1000)
+
+    def go(x):
+        if isinstance(x, bool):
+            return mp.mpf(int(x))
+        if isinstance(x, int):
+            return mp.mpf(x)
+        if isinstance(x, Fraction):
+            return mp.mpf(x.numerator) / mp.mpf(x.denominator)
+        if isinstance(x, tuple) and len(x) >= 2 and x[0] == "s":
+            name, args = x[1], x[2:]
+            if name in ("+", "-", "*", "/") and len(args) == 2:
+                a, b = go(args[0]), go(args[1])
+                return a + b if name == "+" else a - b if name == "-" else a * b if name == "*" else a / b
+            if name == "pow" and len(args) == 2:
+                return mp.power(go(args[0]), go(args[1]))
+            if name == "sqrt" and len(args) == 1:
+                return mp.sqrt(go(args[0]))
+            if name == "-" and len(args) == 1:
+                return -go(args[0])
+        return leaf_value(x)
+    return go(t)
+
+
+def scalar_equal(a, b):
+    """equal as terms, or equal in value at two pseudo-random assignments of their uninterpreted parts (40 digits)"""
+    if a == b:
+        return True
+    import mpmath as mp
+    try:
+        for seed in (0, 1):
+            va, vb = scalar_value(a, seed), scalar_value(b, seed)
+            if abs(va - vb) > mp.mpf(10) ** -30 * (1 + abs(va)):
+                return False
+        return True
+    except (ZeroDivisionError, TypeError, ValueError):
+        return False
